@@ -21,7 +21,12 @@ RULE = ("problems (A,b,C,S) from tools/lib/gen_ls.py (small-integer dense with p
         "correlated cluster) x {env,chol,gso,svd}: the system project_equations() assembled (harness/c01_net.cpp, P "
         "lines) is given to the model of the facade (drv_netfacade) and x, residuals, v'Pv, defect, homogenised A and b "
         "are compared; exact rational oracle on the implementation's answers (v = Ax-b, A'Pv = 0 with P = m0^2 Sigma^-1 "
-        "of the active principal sub-matrices, v'Pv, minimum norm over min_x); non-trivial = correlated cluster or "
+        "of the active principal sub-matrices, v'Pv, minimum norm over min_x); the cofactor accessors are compared too "
+        "(all pairs qxx(i,j) and qbb(i,j), weight_obs, stdev_obs, wcoef_res under the configured sigma-act, each entry "
+        "relative to its natural size) with an exact oracle on the implementation's own numbers: Q=(qxx) symmetric, "
+        "NQN = N, QNQ = Q for N = A'PA; B=(qbb) symmetric, = HQH' for the homogenised H, BB = B, diagonal in [0,1], "
+        "trace = n - defect; weight_obs = m0^2/Sigma_ii at the observation's own position in its cluster, wcoef_res = "
+        "max(0,(1-B_ii)/weight_obs), stdev_obs^2 m0^2 = m0act^2 B_ii Sigma_ii; non-trivial = correlated cluster or "
         "defect>0; distinct by gkf text + algorithm")
 LEVEL_TEXT = ("Lean 4 theorems about executable models of the four solvers and of BOTH entry points, class Adj (gama-g3) "
               "and class LocalNetwork (gama-local: prepareProjectEquations = activeCov/m0^2, CovMat::cholDec + "
@@ -426,6 +431,8 @@ def nf_parse_problem(P):
                                    "buf": t[4 + nobs:]})
         elif t[0] == "minx":
             pr["minx"] = [int(x) for x in t[2:2 + int(t[1])]]
+        elif t[0] == "act":
+            pr["act"] = t[1]
     return pr
 
 
@@ -548,9 +555,261 @@ def _nf_kernel(A, m, n):
     return Z, piv, cs
 
 
+from operator import mul as _nf_opmul  # noqa: E402
+
+NF_COF_TAGS = ("qxx", "qbb", "wobs", "sobs", "wres")
+
+
+def _nf_floats(toks):
+    return [hex2float(t) for t in toks] if toks and all(is_hex(t) for t in toks) else None
+
+
+def nf_cofactor_lines(R):
+    """the cofactor lines of an answer: {"qxx": rows, "qbb": rows, "wobs"/"sobs"/"wres": vector} of floats; a line that
+    is `R <tag> [i] throw <Kind>` (or otherwise not numeric) is kept as its text"""
+    out = {"qxx": {}, "qbb": {}, "hA": {}}
+    for l in R:
+        t = l.split()
+        if len(t) < 2:
+            continue
+        if t[1] in ("qxx", "qbb", "hA") and len(t) >= 3 and t[2].isdigit():
+            v = _nf_floats(t[3:])
+            out[t[1]][int(t[2])] = v if v is not None else " ".join(t[3:])
+        elif t[1] in ("wobs", "sobs", "wres"):
+            v = _nf_floats(t[2:])
+            out[t[1]] = v if v is not None else " ".join(t[2:])
+    return out
+
+
+def _nf_square(rows, k):
+    """dict i -> row  ->  k x k matrix of floats, or a string saying why not"""
+    M = []
+    for i in range(1, k + 1):
+        r = rows.get(i)
+        if r is None:
+            return f"row {i} missing"
+        if isinstance(r, str):
+            return f"row {i}: {r}"
+        if len(r) != k:
+            return f"row {i} has {len(r)} entries, expected {k}"
+        if not all(math.isfinite(v) for v in r):
+            return f"row {i} has a non-finite entry"
+        M.append(r)
+    return M
+
+
+def _nf_ints(M):
+    """matrix of Fractions -> (matrix of ints, common denominator d) with M = ints/d: products of such matrices are exact
+    integer products (no gcd per operation)"""
+    d = 1
+    for row in M:
+        for v in row:
+            d = math.lcm(d, v.denominator)
+    return [[v.numerator * (d // v.denominator) for v in row] for row in M], d
+
+
+def _nf_mul(X, Y):
+    Yt = list(zip(*Y))
+    return [[sum(map(_nf_opmul, r, c)) for c in Yt] for r in X]
+
+
+def _nf_abs(X):
+    return [[abs(float(v)) for v in row] for row in X]
+
+
+def _nf_floor(Ma):
+    """the natural size of entry (i,j) of a positive semidefinite matrix: sqrt(M_ii M_jj) (Cauchy-Schwarz bound of
+    |M_ij|), plus 1e-3 of the largest entry for rows whose diagonal is (numerically) zero.  An entry that is a structural
+    zero (decoupled unknowns) is rounding noise of THIS size, not of the size of its own (cancelled) terms."""
+    k = len(Ma)
+    mx = max([v for r in Ma for v in r] + [0.0])
+    return [[math.sqrt(Ma[i][i] * Ma[j][j]) + 1e-3 * mx for j in range(k)] for i in range(k)]
+
+
+def _nf_add(*Ms):
+    return [[sum(v) for v in zip(*rows)] for rows in zip(*Ms)]
+
+
+def _nf_worst(name, num, den, ref, scale, tol, bad, fmt):
+    """entrywise test  |num/den - ref| <= tol * scale  (num: exact integers over the common denominator den; ref, scale
+    floats); appends the worst violated entry to `bad`, returns the largest |dev|/scale"""
+    worst, at, rel = 0.0, None, 0.0
+    for i, row in enumerate(num):
+        for j, v in enumerate(row):
+            d = abs(v / den) if v else 0.0           # int / int: correctly rounded
+            sc = scale[i][j]
+            if sc > 0:
+                rel = max(rel, d / sc)
+            if d > tol * sc + 1e-300 and d - tol * sc > worst:
+                worst, at = d - tol * sc, (i, j, d, sc)
+    if at:
+        i, j, d, sc = at
+        bad.append(fmt(i + 1, j + 1, d, sc))
+    return rel
+
+
+def nf_sigma_diag(pr):
+    """Sigma_ii of the i-th ACTIVE observation: the diagonal entry of its cluster's covariance matrix at the ORIGINAL
+    position of the observation in the cluster (passive observations keep their position)"""
+    return [_nf_cov_entry(c, k, k) for c in pr["clusters"] for k, a in enumerate(c["active"]) if a]
+
+
+def nf_cofactor_oracle(pr, R, pre, ans, defect, info):
+    """cofactor accessors of LocalNetwork judged on the implementation's own numbers, exactly (Fractions / integers
+    over a common denominator from the hex doubles; only the scales the deviations are compared to are floats):
+      (a) Q = (qxx(i,j)) symmetric, N Q N = N and Q N Q = Q with N = A'PA, P = m0^2 Sigma^-1: Q is a symmetric reflexive
+          generalised inverse of the normal matrix (its inverse when the defect is 0);
+      (b) B = (qbb(i,j)) symmetric, B = H Q H' for the homogenised design matrix H (R hA lines), B B = B, diagonal in
+          [0,1], trace B = n - defect (B is the orthogonal projector onto the range of H);
+      (c) weight_obs(i) = m0^2/Sigma_ii, wcoef_res(i) = max(0, (1 - B_ii)/weight_obs(i)),
+          stdev_obs(i)^2 m0^2 = m0act^2 B_ii Sigma_ii with m0act = m0 (apriori) or sqrt(pvv/dof), 0 if dof <= 0.
+    Every deviation is judged relative to the scale of the terms summed for that entry (sum of the absolute values)
+    plus the natural size of the entry (sqrt(M_ii M_jj) for N and Q, 1 for the projector B: a structural zero between
+    decoupled unknowns / observations is rounding noise of that size), tolerance 1e-7 as for the normal equations."""
+    T = 1e-7
+    bad = []
+    m, n = pr["m"], pr["n"]
+    cof = nf_cofactor_lines(R)
+    Qf, Bf, Hf = _nf_square(cof["qxx"], n), _nf_square(cof["qbb"], m), None
+    if isinstance(Qf, str):
+        bad.append("qxx(i,j) after a successful adjustment: " + Qf)
+    if isinstance(Bf, str):
+        bad.append("qbb(i,j) after a successful adjustment: " + Bf)
+    H = [cof["hA"].get(i) for i in range(1, m + 1)]
+    if all(isinstance(h, list) and len(h) == n and all(math.isfinite(v) for v in h) for h in H):
+        Hf = H
+    vec = {}
+    for tag, what in (("wobs", "weight_obs"), ("sobs", "stdev_obs"), ("wres", "wcoef_res")):
+        v = cof.get(tag)
+        if not isinstance(v, list) or len(v) != m:
+            bad.append(f"{what}(i) after a successful adjustment: " + (v if isinstance(v, str) else f"{0 if v is None else len(v)} values for {m} observations"))
+        else:
+            vec[tag] = v
+    # ---- (a)
+    if not isinstance(Qf, str) and n:
+        qmax = max(abs(v) for r in Qf for v in r)
+        for i in range(n):
+            for j in range(i):
+                tol = T * (math.sqrt(abs(Qf[i][i] * Qf[j][j])) + 1e-3 * qmax)
+                if abs(Qf[i][j] - Qf[j][i]) > tol:
+                    bad.append(f"qxx is not symmetric: qxx({i + 1},{j + 1}) = {Qf[i][j]!r} but qxx({j + 1},{i + 1}) = {Qf[j][i]!r}")
+                    break
+            else:
+                continue
+            break
+        if "Nint" not in pre:
+            A, W = pre["A"], pre["W"]
+            PA = [None] * m
+            for off, blk in W:
+                k = len(blk)
+                for i in range(k):
+                    PA[off + i] = [sum((blk[i][j] * A[off + j][c] for j in range(k) if blk[i][j] != 0 and A[off + j][c] != 0),
+                                       Fraction(0)) for c in range(n)]
+            N = [[sum((A[i][a] * PA[i][b] for i in range(m) if A[i][a] != 0), Fraction(0)) for b in range(n)] for a in range(n)]
+            pre["Nint"], pre["Nden"] = _nf_ints(N)
+            pre["Nabs"] = _nf_abs(N)
+            pre["Nfloor"] = _nf_floor(pre["Nabs"])
+        Ni, dN, Na = pre["Nint"], pre["Nden"], pre["Nabs"]
+        Qi, dQ = _nf_ints([[Fraction(v) for v in r] for r in Qf])
+        Qa = [[abs(v) for v in r] for r in Qf]
+        NQ = _nf_mul(Ni, Qi)                       # over dN dQ
+        NQN = _nf_mul(NQ, Ni)                      # over dN^2 dQ
+        QNQ = _nf_mul(Qi, NQ)                      # over dN dQ^2
+        NaQa = _nf_mul(Na, Qa)
+        sc1 = _nf_add(_nf_mul(NaQa, Na), Na, pre["Nfloor"])
+        sc2 = _nf_add(_nf_mul(Qa, NaQa), Qa, _nf_floor(Qa))
+        D1 = [[NQN[i][j] - Ni[i][j] * dN * dQ for j in range(n)] for i in range(n)]
+        D2 = [[QNQ[i][j] - Qi[i][j] * dN * dQ for j in range(n)] for i in range(n)]
+        info["max_rel_NQN"] = _nf_worst("NQN", D1, dN * dN * dQ, None, sc1, T, bad, lambda i, j, d, sc:
+                                        f"N Q N != N for Q = (qxx(i,j)), N = A'PA: entry ({i},{j}) deviates by {d:.6g}, "
+                                        f"scale of its terms {sc:.6g} (N_ij = {Ni[i - 1][j - 1] / dN:.6g})")
+        info["max_rel_QNQ"] = _nf_worst("QNQ", D2, dN * dQ * dQ, None, sc2, T, bad, lambda i, j, d, sc:
+                                        f"Q N Q != Q for Q = (qxx(i,j)), N = A'PA: entry ({i},{j}) deviates by {d:.6g}, "
+                                        f"scale of its terms {sc:.6g} (qxx({i},{j}) = {Qf[i - 1][j - 1]!r})")
+    # ---- (b)
+    if not isinstance(Bf, str) and m:
+        bmax = max(abs(v) for r in Bf for v in r)
+        for i in range(m):
+            for j in range(i):
+                tol = T * (math.sqrt(abs(Bf[i][i] * Bf[j][j])) + 1e-3 * bmax)
+                if abs(Bf[i][j] - Bf[j][i]) > tol:
+                    bad.append(f"qbb is not symmetric: qbb({i + 1},{j + 1}) = {Bf[i][j]!r} but qbb({j + 1},{i + 1}) = {Bf[j][i]!r}")
+                    break
+            else:
+                continue
+            break
+        Bi, dB = _nf_ints([[Fraction(v) for v in r] for r in Bf])
+        Ba = [[abs(v) for v in r] for r in Bf]
+        if Hf is not None and not isinstance(Qf, str) and n:
+            Hi, dH = _nf_ints([[Fraction(v) for v in r] for r in Hf])
+            Ha = [[abs(v) for v in r] for r in Hf]
+            Hit, Hat = [list(c) for c in zip(*Hi)], [list(c) for c in zip(*Ha)]
+            HQH = _nf_mul(_nf_mul(Hi, Qi), Hit)    # over dH^2 dQ
+            sc = [[v + 1.0 for v in r] for r in _nf_mul(_nf_mul(Ha, Qa), Hat)]     # B is a projector: |B_ij| <= 1
+            D = [[HQH[i][j] * dB - Bi[i][j] * dH * dH * dQ for j in range(m)] for i in range(m)]
+            info["max_rel_HQHt"] = _nf_worst("HQH", D, dH * dH * dQ * dB, None, sc, T, bad, lambda i, j, d, sc:
+                                             f"qbb({i},{j}) = {Bf[i - 1][j - 1]!r} but (H Q H')[{i},{j}] = {HQH[i - 1][j - 1] / (dH * dH * dQ)!r} "
+                                             f"(H = homogenised design matrix, Q = (qxx))")
+        elif Hf is None:
+            bad.append("homogenised design matrix (R hA lines) incomplete: B = H Q H' not checked")
+        BB = _nf_mul(Bi, Bi)                       # over dB^2
+        sc = [[v + 1.0 for v in r] for r in _nf_mul(Ba, Ba)]
+        D = [[BB[i][j] - Bi[i][j] * dB for j in range(m)] for i in range(m)]
+        info["max_rel_BB"] = _nf_worst("BB", D, dB * dB, None, sc, T, bad, lambda i, j, d, sc:
+                                       f"B B != B for B = (qbb(i,j)): entry ({i},{j}) deviates by {d:.6g} (qbb({i},{j}) = {Bf[i - 1][j - 1]!r})")
+        for i in range(m):
+            if not -T <= Bf[i][i] <= 1 + T:
+                bad.append(f"qbb({i + 1},{i + 1}) = {Bf[i][i]!r} is outside [0,1]")
+                break
+        tr = float(sum(Fraction(Bf[i][i]) for i in range(m)))
+        info["trace_qbb_dev"] = abs(tr - (n - defect))
+        if abs(tr - (n - defect)) > T * max(1, n):
+            bad.append(f"trace of (qbb(i,j)) = {tr!r} but unknowns - defect = {n} - {defect}: "
+                       f"sum of the redundancy numbers (1 - qbb(i,i)) = {m - tr!r}, degrees of freedom = {m - n + defect}")
+    # ---- (c)
+    sig = nf_sigma_diag(pr)
+    m02 = pr["m0"] * pr["m0"]
+    if len(sig) == m and "wobs" in vec and all(math.isfinite(v) for v in vec["wobs"]):
+        w = [Fraction(v) for v in vec["wobs"]]
+        for i in range(m):
+            if sig[i] <= 0 or abs(w[i] * sig[i] - m02) > Fraction(T) * m02:
+                bad.append(f"weight_obs({i + 1}) = {vec['wobs'][i]!r} but m0^2/Sigma_ii = {float(m02) / float(sig[i]) if sig[i] else float('inf')!r} "
+                           f"(Sigma_ii = {float(sig[i])!r}: covariance matrix of its cluster at the observation's own position)")
+                break
+        if not isinstance(Bf, str) and "wres" in vec and all(v > 0 for v in w):
+            for i in range(m):
+                ref = max(Fraction(0), (1 - Fraction(Bf[i][i])) / w[i])
+                v = vec["wres"][i]
+                if not math.isfinite(v) or abs(Fraction(v) - ref) > Fraction(T) / w[i]:
+                    bad.append(f"wcoef_res({i + 1}) = {v!r} but max(0, (1 - qbb(i,i))/weight_obs(i)) = {float(ref)!r} "
+                               f"(qbb(i,i) = {Bf[i][i]!r}, weight_obs(i) = {vec['wobs'][i]!r})")
+                    break
+    if len(sig) == m and not isinstance(Bf, str) and "sobs" in vec and pr.get("act") in ("apriori", "aposteriori"):
+        dof = m - n + defect
+        act2 = m02 if pr["act"] == "apriori" else (ans["pvv"] / dof if dof > 0 else Fraction(0))
+        info["dof"] = dof
+        for i in range(m):
+            v, bii = vec["sobs"][i], Fraction(Bf[i][i])
+            if not math.isfinite(v):
+                if bii >= 0 or act2 == 0:           # sqrt of a negative qbb(i,i) is reported by clause (b)
+                    bad.append(f"stdev_obs({i + 1}) = {v!r} (qbb(i,i) = {Bf[i][i]!r})")
+                    break
+                continue
+            if abs(Fraction(v) ** 2 * m02 - act2 * bii * sig[i]) > Fraction(T) * act2 * sig[i]:
+                ref = math.sqrt(max(0.0, float(act2 * bii * sig[i] / m02))) if m02 else float("nan")
+                bad.append(f"stdev_obs({i + 1}) = {v!r} but (m0act/m0) sqrt(qbb(i,i) Sigma_ii) = {ref!r} "
+                           f"(sigma-act {pr['act']}: m0act^2 = {float(act2)!r}, m0 = {float(pr['m0'])!r}, qbb(i,i) = {Bf[i][i]!r}, "
+                           f"Sigma_ii = {float(sig[i])!r} at the observation's own position in its cluster)")
+                break
+    elif pr.get("act") not in ("apriori", "aposteriori"):
+        bad.append("harness protocol: no 'P act' line")
+    return bad
+
+
 def nf_oracle(P, R, cache=None):
     """the property on the implementation's own answers: v = Ax - b, A'Pv = 0, reported sum = v'Pv, x of minimum norm
-    over min_x among the minimisers.  Returns (list of violations, info dict)."""
+    over min_x among the minimisers; then the cofactor accessors (nf_cofactor_oracle).
+    Returns (list of violations, info dict)."""
     info = {}
     pr = nf_parse_problem(P)
     if "m" not in pr or pr["rhs"] is None or len(pr["rows"]) != pr["m"]:
@@ -659,6 +918,7 @@ def nf_oracle(P, R, cache=None):
                                    f"vector z of A (terms up to {max(abs(v) for v in t):.6g})")
                         break
                 info["minnorm_checked"] = True
+    bad += nf_cofactor_oracle(pr, R, pre, ans, defect, info)
     return bad, info
 
 
@@ -671,13 +931,68 @@ def _nf_split(out):
     return P, R, E
 
 
-def _nf_compare(alg, R, M):
+def _nf_close(x, y, tol):
+    return x == y or (x != x and y != y) or (math.isfinite(x) and math.isfinite(y) and abs(x - y) <= tol)
+
+
+def _nf_compare(alg, R, M, info=None):
+    """implementation's answer lines against the model's.  x, r, pvv, hA, hb: per token rtol (1e-7, svd 1e-6) + atol 1e-9
+    as before.  The cofactor lines have no common absolute unit (Q in (unit of the unknown)^2/m0^2 from 1e-3 to 1e2 and
+    more, weights from 1e-3 to 1e2), so each is compared relative to the natural size of the entry instead of an absolute
+    floor — never bit equality, and a factor m0^2 (>= 6.25 whenever sigma-apr != 1) or an entry read from the transposed
+    position of a non-symmetric intermediate (an O(1) change relative to that size) is 1e6 times the tolerance:
+      R qxx / R qbb  entry (i,j): rtol * (sqrt(|M_ii M_jj|) + 1e-3 max|M|) of the implementation's matrix M — the
+                     Cauchy-Schwarz bound of |M_ij| for a positive semidefinite M; svd/gso round relative to the norm
+                     of the whole matrix rather than entrywise, hence the second term;
+      R wobs         rtol relative (a quotient and a product, no cancellation);
+      R wres         rtol / weight_obs(i): wcoef_res(i) = max(0, 1 - qbb(i,i))/weight_obs(i) with 1 - qbb(i,i) in [0,1]
+                     cancelling to rounding noise for an uncontrolled observation;
+      R sobs         compared as squares (stdev_obs(i)^2 is linear in qbb(i,i); the square root magnifies the noise of a
+                     qbb(i,i) that is exactly 0), rtol * max_k(stdev_obs(k)^2 weight_obs(k)) / weight_obs(i), i.e.
+                     relative to (m0act/m0)^2 Sigma_ii max_k qbb(k,k).
+    `info` (optional dict) receives the number of (i,j) pairs compared and the largest deviation in units of that size."""
     rtol = 1e-6 if alg == "svd" else 1e-7
     if len(R) != len(M):
         return f"{len(R)} answer lines, model {len(M)}"
+    cof = nf_cofactor_lines(R)
+    floors = {}
+    for tag in ("qxx", "qbb"):
+        sq = _nf_square(cof[tag], len(cof[tag]))
+        if not isinstance(sq, str) and sq:
+            floors[tag] = _nf_floor([[abs(v) for v in r] for r in sq])
+    w = cof.get("wobs")
+    w = w if isinstance(w, list) and all(math.isfinite(v) and v > 0 for v in w) else None
+    so = cof.get("sobs")
+    smax = max([a * a * b for a, b in zip(so, w) if math.isfinite(a)] + [0.0]) if w and isinstance(so, list) and len(so) == len(w) else None
+    pairs, dev = 0, {}
     for a, b in zip(R, M):
-        if not lines_equal(a, b, rtol=rtol, atol=1e-9):
-            return "line '" + " ".join(a.split()[:3]) + "' differs"
+        ta, tb = a.split(), b.split()
+        tag = ta[1] if len(ta) > 1 else ""
+        ok = None
+        if tag in floors and ta[:3] == tb[:3] and len(ta) == len(tb):
+            xa, xb = _nf_floats(ta[3:]), _nf_floats(tb[3:])
+            i = int(ta[2]) - 1
+            if xa is not None and xb is not None and i < len(floors[tag]) and len(xa) == len(floors[tag]):
+                fl = floors[tag][i]
+                ok = all(_nf_close(x, y, rtol * f) for x, y, f in zip(xa, xb, fl))
+                pairs += len(xa)
+                dev[tag] = max([dev.get(tag, 0.0)] + [abs(x - y) / f for x, y, f in zip(xa, xb, fl) if f > 0 and math.isfinite(x - y)])
+        elif tag in ("wobs", "wres", "sobs") and w and ta[:2] == tb[:2] and len(ta) == len(tb) == len(w) + 2:
+            xa, xb = _nf_floats(ta[2:]), _nf_floats(tb[2:])
+            if xa is not None and xb is not None:
+                if tag == "wobs":
+                    ok = all(_nf_close(x, y, rtol * abs(x)) for x, y in zip(xa, xb))
+                elif tag == "wres":
+                    ok = all(_nf_close(x, y, rtol / wi) for x, y, wi in zip(xa, xb, w))
+                elif smax is not None:
+                    ok = all(_nf_close(x * x, y * y, rtol * smax / wi) and (x >= 0) == (y >= 0) for x, y, wi in zip(xa, xb, w))
+        if ok is None:
+            ok = lines_equal(a, b, rtol=rtol, atol=1e-9)
+        if not ok:
+            return "line '" + " ".join(ta[:3]) + "' differs"
+    if info is not None:
+        info["pairs"] = pairs
+        info["dev"] = dev
     return None
 
 
@@ -751,9 +1066,15 @@ def nf_judge(corr, texts, metas, res, fails, stats=True):
                 corr.count("netfacade_throw:" + " ".join(R[0].split()[2:5])[:60])
             corr.maxstat("netfacade_max_rows", pr.get("m", 0))
             corr.maxstat("netfacade_max_unknowns", pr.get("n", 0))
-        why = "model driver crashed" if e["model_crash"] else _nf_compare(alg, R, e["model"])
+        cmpinfo = {}
+        why = "model driver crashed" if e["model_crash"] else _nf_compare(alg, R, e["model"], cmpinfo)
         if why:
             corr.disagree("netfacade", e["ops"], R, e["model"], f"{alg}: {why}")
+        if stats and not threw:
+            corr.count("netfacade_" + pr.get("act", "no-act"))
+            corr.count("netfacade_cofactor_pairs", cmpinfo.get("pairs", 0))
+            for tag, d in cmpinfo.get("dev", {}).items():
+                corr.maxstat(f"netfacade_max_dev_{tag}_model", d)
         if threw:
             if R[0].startswith("R throw local") or R[0].startswith("R throw gama") or R[0].startswith("R throw std"):
                 corr.count("netfacade_throws_outside_model")
@@ -765,6 +1086,9 @@ def nf_judge(corr, texts, metas, res, fails, stats=True):
             if info.get("kernel") in ("ambiguous", "unverified"):
                 corr.count("netfacade_kernel_" + info["kernel"])
             corr.maxstat("netfacade_max_rel_normal_eq", info.get("max_rel_normal_eq", 0.0))
+            for k in ("max_rel_NQN", "max_rel_QNQ", "max_rel_HQHt", "max_rel_BB", "trace_qbb_dev"):
+                if k in info:
+                    corr.maxstat("netfacade_" + k, info[k])
         if bad:
             fails.append(Failure("netfacade oracle: " + "; ".join(bad[:4]), dict(payload, meta=meta), "LocalNetwork::vyrovnani_",
                                  " | ".join(l[:400] for l in R[:4])))
@@ -837,11 +1161,17 @@ def netfacade_replay(ctx, inp):
             print("    impl ", l[:240])
         for l in e["model"]:
             print("    model", l[:240])
-        why = _nf_compare(e["alg"], e["R"], e["model"]) if e["P"] else "no system dumped"
-        print("    model <-> implementation:", why or "agree")
+        cmpinfo = {}
+        why = _nf_compare(e["alg"], e["R"], e["model"], cmpinfo) if e["P"] else "no system dumped"
+        print("    model <-> implementation:", why or "agree",
+              f"(cofactor pairs compared {cmpinfo.get('pairs', 0)}, largest deviation in units of the entry's size {cmpinfo.get('dev', {})})")
         if e["P"] and e["R"] and not e["R"][0].startswith("R throw"):
             bad, info = nf_oracle(e["P"], e["R"])
-            print("    oracle:", bad or "ok", info)
+            print("    oracle (v = Ax-b, A'Pv = 0, v'Pv, min norm; qxx: symmetric, NQN = N, QNQ = Q; qbb: symmetric, = HQH', "
+                  "BB = B, diagonal in [0,1], trace = n - defect; weight_obs, wcoef_res, stdev_obs):")
+            for b in bad:
+                print("      VIOLATED:", b)
+            print("     ", "ok" if not bad else f"{len(bad)} clause(s) violated", info)
             failed |= 1 if bad else 0
         failed |= 1 if why else 0
     return failed
